@@ -354,7 +354,7 @@ func TestC10LateWrite(t *testing.T) {
 // TestC10Request: the same atomicity through the library entry point (RunTraceroute with one run), which adds
 // its own layer between the caller and the protocol packages.
 func TestC10Request(t *testing.T) {
-	rec := NewRecorder("C10", "C10Request", "enumeration through RunTraceroute (one run, no e2e probes): protocol {udp, icmp, tcp syn, tcp sack} x ({single fatal fault at sink factory, source factory, first/second SetPacketFilter, WriteTo k=1..3, Read k=1..4, SetReadDeadline k=1..2} + fault-free with the public IP requested from a prompt / slow / failing service); oracle: no crash, no result, an error whose chain exposes the injected sentinel when a fault fired (same result as fault-free otherwise), every handle closed exactly once, no goroutine left; non-trivial = the fault fired; exhaustive over that product")
+	rec := NewRecorder("C10", "C10Request", "enumeration through RunTraceroute (one run, no e2e probes): protocol {udp, icmp, tcp syn, tcp sack, tcp prefer_sack (whose SACK attempt the fault hits: a failure there is no reason to fall back)} x ({single fatal fault at sink factory, source factory, first/second SetPacketFilter, WriteTo k=1..3, Read k=1..4, SetReadDeadline k=1..2} + fault-free with the public IP requested from a prompt / slow / failing service); oracle: no crash, no result, an error whose chain exposes the injected sentinel when a fault fired (same result as fault-free otherwise), every handle closed exactly once, no goroutine left; non-trivial = the fault fired; exhaustive over that product")
 	rec.Exhaustive = true
 	type reqCase struct {
 		Rq *Request `json:"request"`
@@ -373,11 +373,11 @@ func TestC10Request(t *testing.T) {
 	}
 	faults = append(faults, fk{"source", "SetReadDeadline", 1}, fk{"source", "SetReadDeadline", 2})
 	RunCases(t, rec, func(yield func(*reqCase) bool) {
-		for _, pm := range [][2]string{{"udp", ""}, {"icmp", ""}, {"tcp", "syn"}, {"tcp", "sack"}} {
+		for _, pm := range [][2]string{{"udp", ""}, {"icmp", ""}, {"tcp", "syn"}, {"tcp", "sack"}, {"tcp", "prefer_sack"}} {
 			for _, f := range faults {
 				rq := &Request{}
 				rq.P = ReqParams{Hostname: "93.184.216.34", Port: 443, Protocol: pm[0], TCPMethod: pm[1], MinTTL: 1, MaxTTL: 3, DelayMs: 2, TimeoutMs: 60, Queries: 1}
-				if pm[1] == "sack" {
+				if pm[1] == "sack" || pm[1] == "prefer_sack" {
 					rq.SackSrv = true
 					rq.P.Hostname = "127.9.8.6"
 					rq.Sack = SackCfg{Permit: true, TS: true, ClientNxt: 0x10203040, ServerISN: 0x0a0b0c0d, SynAckUs: 1000}
@@ -397,7 +397,7 @@ func TestC10Request(t *testing.T) {
 			for _, fm := range []string{"", "slow", "error"} {
 				rq := &Request{Fetcher: fm, ReadAfter: true}
 				rq.P = ReqParams{Hostname: "93.184.216.34", Port: 443, Protocol: pm[0], TCPMethod: pm[1], MinTTL: 1, MaxTTL: 3, DelayMs: 2, TimeoutMs: 60, Queries: 1, PublicIP: true}
-				if pm[1] == "sack" {
+				if pm[1] == "sack" || pm[1] == "prefer_sack" {
 					rq.SackSrv = true
 					rq.P.Hostname = "127.9.8.6"
 					rq.Sack = SackCfg{Permit: true, TS: true, ClientNxt: 0x10203040, ServerISN: 0x0a0b0c0d, SynAckUs: 1000}
